@@ -163,6 +163,17 @@ def run(case):
         out.check(bool(np.all(np.abs(Fout) <= np.abs(Fin) * (1 + 1e-6) + tol * scale)), "power_increased", f"image {i}")
     if out.violations:
         return out
+    # the written file holds the filtered stack (float32 on disk)
+    inp_w = as_input(I, "in_w.mrc")
+    okw, rw = call(out, "dose_filter(output_file)", lambda: tiltstack.dose_filter(inp_w, px, dose_input(doses), output_file="filtered.mrc", input_order=c["in_order"], output_order=c["out_order"]))
+    if okw:
+        try:
+            fl = oracle.mrc_read("filtered.mrc")
+            imgs_f = fl["data"].transpose(2, 1, 0)
+            if out.check(imgs_f.shape == R.shape, "output_file:dims", f"{fl['dims']}"):
+                out.check(np.abs(imgs_f.astype(np.float64) - R.astype(np.float64)).max() <= 2e-5 * (1 + np.abs(R).max()), "output_file:does_not_hold_the_filtered_stack", "")
+        except Exception as e:
+            out.fail("output_file:unreadable_or_missing", repr(e))
     if c["dose_as"] == "array":
         out.check(np.array_equal(dose_arrays[tuple(doses)], np.array(doses, dtype=float)), "dose_array_argument_modified", "")
     # a call with another pixel size on the same image shape in between, then the identical call again (no state between calls)
